@@ -55,8 +55,8 @@ def rect_selector(draw, rows, cols, r0, h, c0, w, allow_short=True):
     return {'t': 'rc', 'r': ra, 'c': ca}
 
 
-def any_selector(draw, rows, cols, max_list=3):
-    """A valid selector of any documented form."""
+def any_selector(draw, rows, cols, max_list=3, dups=False):
+    """A valid selector of any documented form (dups: a list may name a well more than once)."""
     nr, nc = len(rows), len(cols)
     form = draw(st.sampled_from(['rect', 'rect', 'rect', 'stepped', 'list', 'all', 'plate', 'well']))
     if form in ('all', 'plate'):
@@ -69,8 +69,8 @@ def any_selector(draw, rows, cols, max_list=3):
         seen = set()
         for _ in range(n):
             r, c = draw(st.integers(0, nr - 1)), draw(st.integers(0, nc - 1))
-            if (r, c) in seen:
-                continue            # duplicate wells in one list are not generated (semantics undocumented)
+            if (r, c) in seen and not dups:
+                continue            # duplicate wells in one list: only where asked for (per-well semantics undocumented)
             seen.add((r, c))
             if draw(st.booleans()):
                 items.append({'t': 'wstr', 'r': rows[r], 'c': cols[c]})
@@ -153,6 +153,12 @@ def gen_plate(world, draw, profile):
     if custom:
         rows = [f"r{i + 1}" for i in range(nr)] if draw(st.booleans()) else nr
         cols = [f"k{chr(97 + i)}" for i in range(nc)] if draw(st.booleans()) else nc
+        if draw(st.integers(0, 2)) == 0:
+            # labels that look like numbers but do not sit at that position (sample numbers, descending columns):
+            # as a str they are labels, only an int is a position
+            cols = [str(nc - i) for i in range(nc)] if nc > 1 else ['7']
+            if draw(st.booleans()):
+                rows = [str((i + 1) % nr + 1) for i in range(nr)] if nr > 1 else ['3']
     return {'op': 'plate', 'name': world.fresh_name('p'), 'cap': draw(st.sampled_from(profile.get('plate_caps', PLATE_CAPS))),
             'rows': rows, 'cols': cols}
 
@@ -229,7 +235,7 @@ def region_ref(world, draw, pi, want=None):
         c0 = draw(st.integers(0, nc - 1))
         w = draw(st.integers(1, nc - c0))
         return {'i': pi, 'sel': sub_selector(draw, pe.view['rows'], pe.view['cols'], r0, h, c0, w)}
-    return {'i': pi, 'sel': any_selector(draw, pe.view['rows'], pe.view['cols'])}
+    return {'i': pi, 'sel': any_selector(draw, pe.view['rows'], pe.view['cols'], dups=getattr(world, 'dup_wells', False))}
 
 
 def gen_transfer(world, draw, profile):
@@ -666,6 +672,12 @@ def gen_create_solution_from(world, draw, profile):
     if not liquids:
         return None
     solvent = {'s': draw(st.sampled_from(liquids))}
+    if profile.get('solution_from_container_solvent'):
+        # a container as the diluent (direct API only): any other vessel holding a liquid, with or without the solute
+        others = [i for i in world.indices('c') if i != ci and any(
+            a > 0 and ref.subs[nm].kind == 'liquid' for nm, a in world.pool[i].view['contents'])]
+        if others and draw(st.integers(0, 2)) == 0:
+            solvent = {'c': draw(st.sampled_from(others))}
     num = draw(st.sampled_from(['mol', 'mol', 'g', 'L']))
     den = draw(st.sampled_from(['L', 'L', 'g', 'mol']))
     if ref.size(base, den) == 0:       # a mixture without volume (solids under a density of inf): per mass instead
@@ -674,6 +686,13 @@ def gen_create_solution_from(world, draw, profile):
     if not (cur > 0 and math.isfinite(cur)):     # e.g. a solute without volume asked for per volume (density inf)
         return None
     f = draw(st.floats(0.05, 0.95)) if draw(st.integers(0, 7)) else draw(st.floats(1.05, 1.5))
+    if 'c' in solvent:
+        # aim between the diluent's own concentration of the solute and the stock's
+        low = ref.conc(world.base(world.pool[solvent['c']].view), solute, num, den)
+        if math.isfinite(low) and 0 <= low <= 0.7 * cur:
+            f = (low + (cur - low) * draw(st.floats(0.1, 0.9))) / cur
+        elif math.isfinite(low) and low > 0.7 * cur:
+            return None            # diluent about as concentrated as the stock: every target sits on a boundary
     c = draw(basic.conc_spelling(cur * f, num, den, cfg.wv))
     fam = draw(st.sampled_from(['L', 'L', 'g', 'mol']))
     # the stock supplies a fraction f of the solute: quantity up to size/f... keep below what the stock can give
